@@ -341,7 +341,10 @@ fn run_wide(seed: u64, idx: u64) -> CaseOut {
     };
     let msg = content(&mut rng, class, cols);
     let prefix_lit = if rng.chance(1, 2) { "ab " } else { "" };
-    let spec = format!("{prefix_lit}{{wide_msg}}");
+    // the wide field takes an alignment too ({wide_msg:>}, {wide_msg:^}): a message that fits is padded on the
+    // left accordingly (round 11: a fast path for "the message fits" that forgot the alignment)
+    let align = rng.usize(4);
+    let spec = format!("{prefix_lit}{{wide_msg{}}}", ["", ":<", ":>", ":^"][align]);
     let mut co = CaseOut::held(fnv1a(format!("{w}{msg}{spec}").as_bytes()), true);
     let style = ProgressStyle::with_template(&spec).unwrap();
     let m = msg.clone();
@@ -368,8 +371,22 @@ fn run_wide(seed: u64, idx: u64) -> CaseOut {
                 // the literal part alone does not fit: nothing the field could do about it
             } else if c > w {
                 bad = Some(("wide-msg-overflows-terminal", format!("line is {c} columns wide on a {w}-column terminal")));
-            } else if long_enough && c < w && !(class == 2 && c + 1 == w) && prefix_lit.len() <= w {
+            } else if long_enough && c < w && !(class == 2 && c + 1 == w) && !(class == 2 && align == 3) && prefix_lit.len() <= w {
+                // (a centred cut can halve a wide character at both ends; the halves become blanks and the spy trims
+                // the trailing one, so the fill rule is not decidable for that combination)
                 bad = Some(("wide-msg-does-not-fill", format!("line is {c} columns wide, content has {} columns for {avail} available", cols_of(&msg))));
+            } else if cols_of(&msg) <= avail && !msg.is_empty() {
+                let diff = avail - cols_of(&msg);
+                let left = match align {
+                    2 => diff,
+                    3 => diff / 2,
+                    _ => 0,
+                };
+                let want = format!("{prefix_lit}{}{}", " ".repeat(left), console::strip_ansi_codes(&msg));
+                let got = console::strip_ansi_codes(&line).to_string();
+                if got.trim_end() != want.trim_end() {
+                    bad = Some(("wide-msg-alignment", format!("the message fits ({} of {avail} columns) and must be padded with {left} blanks on the left: expected {:?}", cols_of(&msg), want.trim_end())));
+                }
             }
             if let Some((rule, d)) = bad {
                 co.verdict = Verdict::Violated(Box::new(Violation {
